@@ -532,7 +532,14 @@ pub fn c17_case(case: &Case, gen: &Gen, rf: &Reference, acc: &mut Acc) {
         return;
     };
     if rf.lalr_tables.has_conflict() {
-        acc.inc("skipped: accepted although the reference has a conflict (reported by C04)");
+        // tables were emitted although the LALR(1) automaton has a conflict: whatever they are, they are not its tables
+        acc.finding(Finding::new(
+            "grammar_case",
+            case.to_json(),
+            format!("tables were emitted for a grammar whose LALR(1) automaton has a conflict (in {} state(s)): they cannot be the LALR(1) tables [{}]", rf.lalr_tables.conflict_states(), rf.class.name()),
+            json!("no tables (the automaton has a conflict)"),
+            json!("tables emitted"),
+        ));
         return;
     }
     acc.inc(&format!("class: {}", rf.class.name()));
@@ -829,7 +836,8 @@ pub fn run_c17(ctx: &Ctx) -> Outcome {
     out.cov("traces_validated_against_impl", json!(iso));
     out.cov("explanation", json!("states = automaton states put in bijection with the reference LALR(1) automaton, transitions = ACTION/GOTO cells compared under the bijection; tables are read from the text the real generate emitted; rule identity comes from the constructor named in each emitted reduce function"));
     if not_understood > 0 {
-        out.push(Finding::new("note", json!({"extractor_failures": not_understood}), format!("{not_understood} emitted texts could not be read by the extractor while {iso} could"), json!("all emitted texts have the same shape"), json!(not_understood)));
+        // being unable to read some texts is no evidence against the property: a machinery exit, never a verdict
+        machinery_error(format!("C17: {not_understood} emitted texts could not be read by the extractor while {iso} could"));
     }
     out
 }
